@@ -137,6 +137,8 @@ pub struct Model {
     pub poisoned: bool,
     // round scratch
     pub cone_start: BTreeSet<Hid>,
+    /// needed at the end of the previous stabilise
+    pub nec_before_round: BTreeSet<Hid>,
     pub necessary: BTreeSet<Hid>,
     pub run_order: Vec<(Hid, usize)>,
     pub expected_notifs: BTreeMap<usize, Upd>,
@@ -176,6 +178,7 @@ impl Model {
             state_alive: true,
             poisoned: false,
             cone_start: BTreeSet::new(),
+            nec_before_round: BTreeSet::new(),
             necessary: BTreeSet::new(),
             run_order: vec![],
             expected_notifs: BTreeMap::new(),
